@@ -375,10 +375,53 @@ static WORLD_NO: std::sync::atomic::AtomicU64 = std::sync::atomic::AtomicU64::ne
 /// INDEPENDENT encoder with seeded layout freedoms) | pmtiles | mbtiles | tar | dir; the suffix wraps the
 /// reader in `TilesConvertReader` with these flags
 pub fn base_kind(kind: &str) -> &str {
-	kind.split('~').next().unwrap()
+	kind.trim_end_matches('^').split('~').next().unwrap()
 }
 pub fn conv_flags(kind: &str) -> Option<(bool, bool)> {
-	kind.split_once('~').map(|(_, f)| (&f[0..1] == "1", &f[1..2] == "1"))
+	kind.trim_end_matches('^').split_once('~').map(|(_, f)| (&f[0..1] == "1", &f[1..2] == "1"))
+}
+/// `…^`: the reader's lookups yield a coordinate-dependent number of times before answering (completion order of
+/// concurrent lookups differs from their submission order) and boxes are served by the trait's DEFAULT stream
+pub fn is_slow(kind: &str) -> bool {
+	kind.ends_with('^')
+}
+
+/// lookups that stay pending for a while: `(x + 3y) % 7` yields (earlier coordinates of a row tend to answer later)
+#[derive(Debug)]
+pub struct SlowSource {
+	pub inner: Box<dyn TilesReaderTrait>,
+}
+#[async_trait::async_trait]
+impl TilesReaderTrait for SlowSource {
+	fn get_source_name(&self) -> &str {
+		self.inner.get_source_name()
+	}
+	fn get_container_name(&self) -> &str {
+		"slow"
+	}
+	fn get_parameters(&self) -> &TilesReaderParameters {
+		self.inner.get_parameters()
+	}
+	fn override_compression(&mut self, c: TileCompression) {
+		self.inner.override_compression(c)
+	}
+	fn get_tilejson(&self) -> &versatiles_core::tilejson::TileJSON {
+		self.inner.get_tilejson()
+	}
+	async fn get_tile_data(&self, coord: &TileCoord3) -> Result<Option<Blob>> {
+		let n = 6 - ((coord.x as u64 + 3 * coord.y as u64) % 7).min(6);
+		for _ in 0..n * 2 {
+			tokio::task::yield_now().await;
+		}
+		self.inner.get_tile_data(coord).await
+	}
+}
+pub fn wrap_slow(r: Box<dyn TilesReaderTrait>, kind: &str) -> Box<dyn TilesReaderTrait> {
+	if is_slow(kind) {
+		Box::new(SlowSource { inner: r })
+	} else {
+		r
+	}
 }
 /// the coordinate at which a converter with these flags serves the source tile `(z, x, y)`
 pub fn conv_coord(k: Key, flip: bool, swap: bool) -> Key {
@@ -621,6 +664,7 @@ impl World {
 			None => Box::new(self.mem[i].clone()),
 		};
 		let r = wrap_conv(r, &self.specs[i].kind)?;
+		let r = wrap_slow(r, &self.specs[i].kind);
 		Ok(wrap_faulty(r, &self.specs[i].fail))
 	}
 	pub fn has_faults(&self) -> bool {
@@ -651,6 +695,7 @@ impl World {
 					None => Box::new(mem[i].clone()) as Box<dyn TilesReaderTrait>,
 				};
 				let r = wrap_conv(r, &kinds[i])?;
+				let r = wrap_slow(r, &kinds[i]);
 				Ok(wrap_faulty(r, &fails[i]))
 			})
 		});
@@ -1207,6 +1252,61 @@ pub fn concurrent_streams(rt: &tokio::runtime::Runtime, out: &mut Out, src: &Rea
 	);
 }
 
+/// A stream of `b` on a reader while `n_tasks` other tasks keep calling `get_tile_data` on the SAME reader object (multi-thread
+/// runtime): every streamed pair must be what a quiet lookup returns.
+pub fn stream_under_lookup_load(rt: &tokio::runtime::Runtime, out: &mut Out, rd: Box<dyn TilesReaderTrait>, b: &TileBBox, probes: Vec<TileCoord3>, prop: &str, case: &str) {
+	let rd: Arc<Box<dyn TilesReaderTrait>> = Arc::new(rd);
+	let bb = b.clone();
+	let r = catch(|| {
+		rt.block_on(async {
+			let stop = Arc::new(std::sync::atomic::AtomicBool::new(false));
+			let mut hs = vec![];
+			for t in 0..4usize {
+				let rd = rd.clone();
+				let stop = stop.clone();
+				let probes = probes.clone();
+				hs.push(tokio::spawn(async move {
+					let mut i = t;
+					while !stop.load(std::sync::atomic::Ordering::Relaxed) {
+						let _ = rd.get_tile_data(&probes[i % probes.len()]).await;
+						i += 3;
+						tokio::task::yield_now().await;
+					}
+				}));
+			}
+			let rd2 = rd.clone();
+			let sh = tokio::spawn(async move { rd2.get_bbox_tile_stream(bb).await.collect().await });
+			let streamed = sh.await;
+			stop.store(true, std::sync::atomic::Ordering::Relaxed);
+			for h in hs {
+				let _ = h.await;
+			}
+			let streamed = streamed.map_err(|e| e.to_string())?;
+			// quiet lookups afterwards
+			let mut bad = None;
+			for (c, blob) in streamed.iter() {
+				match rd.get_tile_data(c).await {
+					Ok(Some(q)) if q.as_slice() == blob.as_slice() => {}
+					_ => {
+						bad = Some(*c);
+						break;
+					}
+				}
+			}
+			Ok::<(usize, Option<TileCoord3>), String>((streamed.len(), bad))
+		})
+	});
+	out.eval(&format!("{prop} load {case}"), true);
+	out.count("streams_under_concurrent_lookup_load");
+	let (ok, text) = match r {
+		Ok(Ok((_, None))) => (true, String::new()),
+		Ok(Ok((_, Some(c)))) => (false, format!("the tile streamed for {c:?} is not what a lookup of that coordinate returns")),
+		Ok(Err(e)) => (false, format!("stream task failed: {}", trunc(&e, 100))),
+		Err(m) => (false, format!("panic: {}", trunc(&m, 100))),
+	};
+	out.oracle(ok, &format!("{prop} stream while other tasks look tiles up on the same reader: {text}"), json!({"kind": "stream_under_lookup_load", "src": case.split(';').nth(4).unwrap_or("").split(' ').next().unwrap_or("")}), json!({"case": case}));
+}
+
 /// `Value` helper for samples
 pub fn jstr(s: &str) -> Value {
 	json!(trunc(s, 300))
@@ -1522,7 +1622,7 @@ pub fn count_dups(out: &mut Out, tiles: &BTreeMap<Key, u64>) {
 /// `stream` = "C02v" | "C02m", `op` = "S" (args: boxes) | "G" (args: coordinates); source 0 of the world
 pub fn reader_line(rt: &tokio::runtime::Runtime, out: &mut Out, id: &mut Ident, w: &World, stream: &str, op: &str, args: &str) {
 	use crate::indep_formats::{brotli_d, parse_versatiles};
-	if !w.usable() || w.paths[0].is_none() || w.has_faults() {
+	if !w.usable() || w.paths[0].is_none() || w.has_faults() || is_slow(&w.specs[0].kind) {
 		return;
 	}
 	let path = w.paths[0].clone().unwrap();
